@@ -647,7 +647,8 @@ pub fn panic_probe(cx: &ProbeCtx, hist: &[OpId]) {
         if p_len_ok(cx, hist, i) {
             for kind in ITEM_KINDS {
                 for hint in [Hint::Honest, Hint::Zero] {
-                    for at in 1..=n_items(kind) + 1 {
+                    // (call n+2 never happens: the last case is the run that completes)
+                    for at in 1..=n_items(kind) + 2 {
                         let desc = format!("slot {i}: extend({kind:?} items, {hint:?} size hint, next() panicking at call {at})");
                         panic_case(cx, hist, Some(i), "extend", desc, |p| {
                             let h = p.s[i].h.as_mut().unwrap();
